@@ -223,7 +223,7 @@ func run(d desc) hlib.Case {
 }
 
 // ---- generators ----------------------------------------------------------------------------------------------
-var sepAlpha = []byte("; =\"\\\r\n ,%3Bab;=\" ")
+var sepAlpha = []byte("; =\"\\\r\n ,%3Bab;=\" \t")
 var octetAlpha = []byte("abcXYZ019!#$%&'()*+-./:<>?@[]^_`{|}~=")
 var nameAlpha = []byte("abcXYZ019!#$%&'*+-.^_`|~")
 
@@ -304,6 +304,17 @@ func corpus() []desc {
 	}
 	for _, p := range paths {
 		c = append(c, attrCombo(5, []byte("k"), []byte("v"), nil, []byte(p)))
+	}
+	// whitespace-only / blank-edged attributes and empty key or value, as last attribute (the header reader trims
+	// SP/HTAB around the whole field value) and followed by flags
+	for _, w := range []string{"\t", " ", "\t ", " \t", "x\t", "\tx", "\"x\"\t", "\" x\"", " \"x\" ", "\t\"x\"", "x \t"} {
+		for _, kv := range [][2]string{{"", ""}, {"k", ""}, {"", "v"}, {"k", "v"}, {"", w}, {"k", w}} {
+			c = append(c, desc{Kind: "cookie", Ops: []cop{{T: "key", V: []byte(kv[0])}, {T: "value", V: []byte(kv[1])}, {T: "domain", V: []byte(w)}}},
+				desc{Kind: "cookie", Ops: []cop{{T: "key", V: []byte(kv[0])}, {T: "value", V: []byte(kv[1])}, {T: "domain", V: []byte(w)}, {T: "httponly", B: true}, {T: "secure", B: true}}},
+				desc{Kind: "cookie", Ops: []cop{{T: "key", V: []byte(kv[0]), S: true}, {T: "value", V: []byte(kv[1]), S: true}, {T: "path", V: []byte("/" + w)}}})
+		}
+		c = append(c, desc{Kind: "cookie", Ops: []cop{{T: "httponly"}, {T: "httponly"}, {T: "domain", V: []byte(w)}, {T: "secure"}}})
+		c = append(c, desc{Kind: "reqcookies", Sets: [][2]hlib.B{{[]byte(w), []byte("1")}, {[]byte("a"), []byte(w)}}}, desc{Kind: "reqcookies", Sets: [][2]hlib.B{{[]byte(""), []byte(w)}}})
 	}
 	for _, e := range expires {
 		c = append(c, desc{Kind: "cookie", Ops: []cop{{T: "key", V: []byte("k")}, {T: "value", V: []byte("v")}, {T: "expire", N: e}}})
